@@ -102,6 +102,7 @@ struct GenCfg {
   int max_fuel = 40;
   bool fp = true, ld = true, calls = true, exts = true, allocas = true, indirect = true, overflow = true;
   bool jmpi = true;          // laddr + jmpi terminators
+  bool callbacks = false;       // a native that calls back a generated function through its address
   bool abs_mem = true;          // absolute-address memory forms (need the fixed-address buffer)
   bool const_branches = true;   // compare-and-branch / bt / bf with only immediate operands (folded by GVN)
   bool single_switch = true;    // switch with a single target
@@ -109,6 +110,10 @@ struct GenCfg {
   bool mem_operands = true;  // memory operands directly in arithmetic insns
   bool inline_insn = true;   // use `inline` as well as `call`
   bool multi_module = false; // spread functions over modules with import/export
+  int min_funcs = 1;
+  bool prologue_alloca = false;  // some functions start with an alloca (a `top` alloca for the inliner)
+  int call_weight = 3;         // weight of call insns among the instruction kinds
+  bool wide_sigs = false;      // some inner functions take 7-14 arguments, mostly of one register kind
   bool single_result = false;  // C20: at most one result per function
   bool no_ld_imm = false;
   bool alias = true;
@@ -117,7 +122,7 @@ struct GenCfg {
 struct Features {
   bool irreducible = false, has_switch = false, jmpi = false, fp = false, ld = false, alloca = false, spill = false,
        call = false, ext = false, overflow = false, mem = false, indirect = false, inline_i = false, narrow = false,
-       blkarg = false, multi_res = false, memop = false;
+       blkarg = false, multi_res = false, memop = false, wide = false, fp8 = false;
 };
 
 struct FuncSig {
@@ -141,6 +146,8 @@ static inline std::vector<Proto> ext_protos () {
   p.args = {{MIR_T_I64, "a"}, {MIR_T_I64, "b"}, {MIR_T_I64, "c"}, {MIR_T_I64, "d"}, {MIR_T_I64, "e"}, {MIR_T_I64, "f"},
             {MIR_T_I64, "g"}, {MIR_T_D, "h"}, {MIR_T_I64, "i"}};
   v.push_back (p);
+  p.name = "p_ext_cb"; p.res = {MIR_T_I64}; p.args = {{MIR_T_P, "fn"}, {MIR_T_I64, "depth"}, {MIR_T_P, "buf"}};
+  v.push_back (p);
   return v;
 }
 
@@ -155,7 +162,8 @@ struct ProgGen {
   // per function state
   Func *f = nullptr;
   std::vector<int> w64, w32, fr, dr, ldr, addr;  // register indexes per class
-  int r_fuel = -1, r_buf = -1, r_depth = -1, r_idx = -1, r_tmp = -1, r_lab = -1;
+  std::vector<int> wide_idx;                     // functions with a wide signature
+  int r_fuel = -1, r_buf = -1, r_depth = -1, r_idx = -1, r_tmp = -1, r_lab = -1, r_lab2 = -1;
   int exit_label = -1;
   std::vector<int> block_labels;
   struct AllocaInfo { int reg; int size; };
@@ -252,7 +260,7 @@ struct ProgGen {
   // ---- one random non-terminator instruction (may emit a short sequence)
   void gen_insn () {
     std::vector<int> w = {10, 7, 4, (cfg.fp && !dr.empty ()) ? 6 : 0, cfg.fp ? 3 : 0, cfg.fp ? 3 : 0, 5, 4,
-                          (cfg.calls || cfg.exts) ? 3 : 0, cfg.allocas ? 1 : 0, 2};
+                          (cfg.calls || cfg.exts) ? cfg.call_weight : 0, cfg.allocas ? 1 : 0, 2};
     int k = cs.weightedv (w);
     switch (k) {
     case 0: {  // 64-bit integer binary op
@@ -508,12 +516,30 @@ struct ProgGen {
 
   std::set<std::string> used_protos;  // per module
   std::vector<std::set<std::string>> mod_protos, mod_imports;
+  bool has_cbf = false;
+  int cbf_module = 0;
 
   void gen_call () {
     bool to_ext = cfg.exts && (!cfg.calls || sigs.size () <= 1 || cs.chance (100));
+    if (cfg.callbacks && has_cbf && cs.chance (60)) {
+      // native code re-enters MIR through the public address of a generated function
+      feat.ext = true;
+      int skip = f->new_label ();
+      f->add (MIR_BLE, {Op::L (skip), Op::R (r_depth), Op::I (0)});
+      f->add (MIR_SUB, {Op::R (r_tmp), Op::R (r_depth), Op::I (1)});
+      int ar = addr.back ();
+      f->add (MIR_MOV, {Op::R (ar), Op::Ref ("cbf")});
+      int my_mod = sigs[func_index].module;
+      mod_protos[my_mod].insert ("p_ext_cb");
+      mod_imports[my_mod].insert ("ext_cb");
+      if (cbf_module != my_mod) mod_imports[my_mod].insert ("cbf");
+      f->insns.emplace_back (MIR_CALL, std::vector<Op>{Op::Ref ("p_ext_cb"), Op::Ref ("ext_cb"), Op::R (pick (w64)), Op::R (ar), Op::R (r_tmp), Op::R (r_buf)});
+      f->label (skip);
+      return;
+    }
     if (to_ext) {
       static const std::vector<Proto> eps = ext_protos ();
-      const Proto &p = eps[cs.range (0, eps.size () - 1)];
+      const Proto &p = eps[cs.range (0, eps.size () - 2)];  /* the last one (ext_cb) is used only by the callback form */
       if (!sig_usable (p.res, p.args)) return;
       if (p.name == "p_ext_ld" && !cfg.ld) return;
       feat.ext = true;
@@ -529,6 +555,7 @@ struct ProgGen {
     // call any generated function (recursion included): guarded by depth
     int callee = (int) cs.range (0, sigs.size () - 1);
     if (callee == 0) callee = (int) cs.range (0, sigs.size () - 1);  // entry is a less likely callee
+    if (cfg.wide_sigs && !wide_idx.empty () && cs.chance (128)) callee = wide_idx[cs.range (0, wide_idx.size () - 1)];
     const FuncSig &s = sigs[callee];
     if (!sig_usable (s.res, s.args)) return;
     feat.call = true;
@@ -547,7 +574,20 @@ struct ProgGen {
       target = Op::R (ar);
     }
     std::vector<Op> ops = {Op::Ref (pname), target};
-    for (int t : s.res) ops.push_back (Op::R (res_reg_for (t)));
+    // result registers are pairwise distinct: the order in which results are assigned is not specified
+    std::vector<int> used_res;
+    for (int t : s.res) {
+      int r = res_reg_for (t);
+      const std::vector<int> &cls = t == MIR_T_F ? fr : t == MIR_T_D ? dr : t == MIR_T_LD ? ldr : w64;
+      for (size_t k = 0; k < cls.size () && std::find (used_res.begin (), used_res.end (), r) != used_res.end (); k++)
+        r = cls[k];
+      if (std::find (used_res.begin (), used_res.end (), r) != used_res.end ()) {  // class too small: no call
+        f->label (skip);
+        return;
+      }
+      used_res.push_back (r);
+      ops.push_back (Op::R (r));
+    }
     if (s.res.size () > 1) feat.multi_res = true;
     for (size_t i = 0; i < s.args.size (); i++) {
       if (i == 0) ops.push_back (Op::R (r_tmp));  // depth - 1
@@ -618,13 +658,16 @@ struct ProgGen {
     case 5: {  // computed goto
       feat.jmpi = true;
       int l1 = some_label (), l2 = some_label (), sk = f->new_label ();
+      bool same_block = cs.flip ();  // both label addresses taken in one basic block (a dispatch-table set-up)
       f->add (MIR_LADDR, {Op::R (r_lab), Op::L (l1)});
+      if (same_block) f->add (MIR_LADDR, {Op::R (r_lab2), Op::L (l2)});
       {
         Op a = int_src64 (false);
         if (!cfg.const_branches && a.k == Op::INT) a = Op::R (pick (w64));
         f->add (MIR_BT, {Op::L (sk), a});
       }
-      f->add (MIR_LADDR, {Op::R (r_lab), Op::L (l2)});
+      if (same_block) f->add (MIR_MOV, {Op::R (r_lab), Op::R (r_lab2)});
+      else f->add (MIR_LADDR, {Op::R (r_lab), Op::L (l2)});
       f->label (sk);
       f->add (MIR_JMPI, {Op::R (r_lab)});
       break;
@@ -698,6 +741,7 @@ struct ProgGen {
     r_idx = fn.new_reg (W64, "idx");
     r_tmp = fn.new_reg (W64, "tmp");
     r_lab = fn.new_reg (LABV, "lab");
+    r_lab2 = fn.new_reg (LABV, "lab");
     // prologue: every register is initialised
     int nargs = (int) fn.args.size ();
     std::vector<int> int_args;
@@ -733,12 +777,31 @@ struct ProgGen {
       }
     for (int r : addr) fn.add (MIR_MOV, {Op::R (r), Op::R (r_buf)});
     fn.add (MIR_LADDR, {Op::R (r_lab), Op::L (0)});
+    fn.add (MIR_LADDR, {Op::R (r_lab2), Op::L (0)});
+    // an alloca ahead of every label is what link-time inlining merges into the caller's frame
+    if (cfg.allocas && cfg.prologue_alloca && cs.chance (100)) gen_alloca ();
     // block arguments: the callee owns a private copy of 16..32 bytes; fold it into registers
     for (int b : blk_args) {
       fn.add (MIR_MOV, {Op::R (pick (w64)), Op::M (MIR_T_I64, 0, b)});
       fn.add (MIR_MOV, {Op::M (MIR_T_I64, 8, b), Op::I (pick_int (cs))});  // writes must stay private to the callee
       fn.add (MIR_MOV, {Op::R (pick (w64)), Op::M (MIR_T_I64, 8, b)});
     }
+    // wide signatures: every argument is recorded, so one lost or swapped argument register is always visible
+    if (nargs > 7) feat.wide = true;
+    {
+      int nfp = 0;
+      for (auto &a : fn.args) nfp += a.type == MIR_T_F || a.type == MIR_T_D;
+      if (nfp >= 8) feat.fp8 = true;
+    }
+    if (nargs > 7)
+      for (int k = 1; k + 1 < nargs; k++) {
+        int t = fn.args[k].type;
+        int64_t off = 8 * (int64_t) (k - 1);
+        if (t == MIR_T_F) fn.add (MIR_FMOV, {Op::M (MIR_T_F, off, r_buf), Op::R (k)});
+        else if (t == MIR_T_D) fn.add (MIR_DMOV, {Op::M (MIR_T_D, off, r_buf), Op::R (k)});
+        else if (t == MIR_T_LD) fn.add (MIR_LDMOV, {Op::M (MIR_T_LD, 192 + 16 * (k % 4), r_buf), Op::R (k)});
+        else if (t < MIR_T_BLK) fn.add (MIR_MOV, {Op::M (MIR_T_I64, off, r_buf), Op::R (k)});
+      }
     // blocks
     int nblocks = (int) cs.range (1, cfg.max_blocks);
     exit_label = fn.new_label ();  // label 0
@@ -779,7 +842,7 @@ struct ProgGen {
 
   // ---- whole program
   Prog generate () {
-    int nf = (int) cs.range (1, cfg.max_funcs);
+    int nf = (int) cs.range (cfg.min_funcs, cfg.max_funcs);
     int nmods = cfg.multi_module ? (int) cs.range (1, 3) : 1;
     prog.mods.resize (nmods);
     mod_protos.resize (nmods);
@@ -808,10 +871,14 @@ struct ProgGen {
           s.res.push_back (t);
         }
         s.args.push_back ({MIR_T_I64, "depth"});
-        int na = (int) cs.range (0, 5);
+        // wide signatures fill every argument register of one kind and spill to the stack (wrappers and
+        // trampolines save and restore all of them)
+        bool wide = cfg.wide_sigs && cs.chance (64);
+        int wide_t = wide ? (cs.flip () ? MIR_T_D : cs.flip () ? MIR_T_I64 : MIR_T_F) : 0;
+        int na = wide ? (int) cs.range (8, 14) : (int) cs.range (0, 5);
         for (int k = 0; k < na; k++) {
           static const int at[] = {MIR_T_I64, MIR_T_D, MIR_T_I32, MIR_T_U8, MIR_T_F, MIR_T_I16, MIR_T_LD, MIR_T_U32, MIR_T_I8, MIR_T_U16, MIR_T_U64, MIR_T_BLK};
-          int t = at[cs.range (0, cfg.narrow_sigs ? 11 : 1)];
+          int t = wide && cs.chance (200) ? wide_t : at[cs.range (0, cfg.narrow_sigs ? 11 : 1)];
           if (!cfg.fp && !MIR_int_type_p ((MIR_type_t) t) && t != MIR_T_BLK) t = MIR_T_I64;
           if (t == MIR_T_LD && !cfg.ld) t = MIR_T_D;
           Arg a = {t, "a" + std::to_string (k), 0};
@@ -823,8 +890,20 @@ struct ProgGen {
           s.args.push_back (a);
         }
         s.args.push_back ({MIR_T_P, "buf"});
+        if (wide) wide_idx.push_back (i);
       }
       sigs.push_back (s);
+    }
+    if (cfg.callbacks) {
+      FuncSig s;
+      s.name = "cbf";
+      s.module = (int) cs.range (0, nmods - 1);
+      s.res = {MIR_T_I64};
+      s.args = {{MIR_T_I64, "depth"}, {MIR_T_P, "buf"}};
+      sigs.push_back (s);
+      has_cbf = true;
+      cbf_module = s.module;
+      nf++;
     }
     for (int i = 0; i < nf; i++) gen_func (i);
     // declarations: protos and imports first, exports for everything
